@@ -311,6 +311,10 @@ macro_rules! gen_builder {
             .map(|i: usize| V::I(i as i64))
             .on_error_map(inf)
             .box_it(),
+          Src::IntervalUs(p) => interval(Duration::from_micros(*p), cx.sched.clone())
+            .map(|i: usize| V::I(i as i64))
+            .on_error_map(inf)
+            .box_it(),
           Src::IntervalAt(at, p) => {
             interval_at(instant_at(cx.base, *at), ms(*p), cx.sched.clone())
               .map(|i: usize| V::I(i as i64))
